@@ -46,6 +46,32 @@ CHECKS = {
              "equal the reference rows exactly; the metadata counter must drop by the number of newly revealed plates; poisoned plates "
              "(all zero / NaN) must be refused; constructor and set_observed clauses are checked on reached screens.",
         note="In-place operations are applied to un-aliased copies (reveal results share arrays with their source; no property speaks about that)."),
+    "C11": dict(
+        engine="prepsim", design="6.11", category="exploration",
+        technique=TECH + ": seeded preparation histories (chains of generators/smoothers/cover/filter/reveal/split, generator in any state), multiset conservation oracle against input snapshots",
+        text="Chains of the shipped preparation operations on screens with duplicate conditions, single-agent rows and observed + unobserved "
+             "plates, so each operation also runs on the outputs of the others (merged plates, ''-named plates, appended observed part). "
+             "Every returning operation is judged by multiset algebra against a snapshot taken before the call: generators keep all "
+             "experiments, smoothers a sub-collection, the observed part passes through with its plate labels, both hold-out splits "
+             "partition their input with the stated per-plate counts and masks.",
+        note="No I/O and no injected faults: the simulated dimensions are chaining (history) and generator state (entropy). Operations that "
+             "raise are outside the quantifier and are not judged."),
+    "C13": dict(
+        engine="prepsim", design="6.13", category="exploration",
+        technique=TECH + ": seeded preparation histories biased to the stated corners, per-operation post-condition oracles with small reference simulations (min-merge heap, top-bottom pairing, optimal size)",
+        text="The same chains as C11, biased to several samples at/below the size limit, samples exactly at the limit, one/many plates and "
+             ">= 2 samples below the per-sample minimum. On return each operation is judged against its documented shape guarantee: "
+             "single-sample and size-limited generated plates, the cover, the combination filter, common/optimal plate size, per-sample "
+             "minimum, exact stopping of min-merge and halving of top-bottom merge (against reference simulations on plate sizes).",
+        note="Found two genuine defects on the pinned tree (sample-segregating generator, per-sample-minimum smoother), both repaired by fix: "
+             "commits. Merge smoothers are judged only on single-sample inputs (their precondition)."),
+    "C14": dict(
+        engine="viewsim", design="6.14", category="exploration",
+        technique=TECH + ": seeded view-operation histories with a reference index set per live view; every live view re-checked after every operation (aliasing)",
+        text="Histories of subset / subset-of-subset / combine / concat / invert / observed / unobserved / get_plate / plates / to_screen / "
+             "unique-filter / cross-screen combine over a pool of live views of two screens. Because views alias their parent and each other, "
+             "after every operation EVERY live view is compared with its reference index set and with the parent's rows at those indices.",
+        note="History-only simulation: no I/O, no faults (said plainly in DESIGN 6.14). Plate.merge is outside the property's operation list."),
 }
 
 NOT_APPLICABLE = {
